@@ -72,6 +72,36 @@ package merkledag
 //@   site[handler_gets_failing_cid] callfield:ErrorHandler : arg0 == ci && arg1 == res("callparam:getLinks#0", 1)
 //@   site[provide_this_node] invoke:StartProviding : len(arg2) == 1 && arg2[0] == cidHash(ci)
 //@   site[children_one_deeper] select-send:out : arg0.depth == depth + 1 && arg0.links == links
+// the coordinator counts one "done" per item it fed: a worker goes back for the next item only
+// through the final select on done (otherwise the walk never terminates)
+//@   loop 0 continue[every_item_is_answered] called("select-send:done#0")
+
+// any combination of options: every option that installs an error handler composes it with the
+// handlers installed before (through addHandler), never overwrites the field
+//@ func IgnoreErrors$1
+//@   prop C12
+//@   arith int
+//@   requires walkOptions != nil
+//@   modifies all
+//@   ensures[handlers_are_composed] called("call:walkOptions.addHandler#0")
+//@ func IgnoreMissing$1
+//@   prop C12
+//@   arith int
+//@   requires walkOptions != nil
+//@   modifies all
+//@   ensures[handlers_are_composed] called("call:walkOptions.addHandler#0")
+//@ func OnMissing$1
+//@   prop C12
+//@   arith int
+//@   requires walkOptions != nil
+//@   modifies all
+//@   ensures[handlers_are_composed] called("call:walkOptions.addHandler#0")
+//@ func OnError$1
+//@   prop C12
+//@   arith int
+//@   requires walkOptions != nil
+//@   modifies all
+//@   ensures[handlers_are_composed] called("call:walkOptions.addHandler#0")
 
 // composing error handlers: the composed handler must call the handler that was installed
 // before, not re-read wo.ErrorHandler (which by then is the composed handler itself)
@@ -83,9 +113,9 @@ package merkledag
 //@ func (*walkOptions).addHandler
 //@   prop C12
 //@   arith int
-//@   requires wo != nil && handler != nil
+//@   requires wo != nil
 //@   modifies wo.ErrorHandler
-//@   ensures[installed] wo.ErrorHandler != nil
+//@   ensures[installed] handler != nil ==> wo.ErrorHandler != nil
 //@   ensures[first_handler_direct] old(wo.ErrorHandler) == nil ==> wo.ErrorHandler == handler
 
 // visit function of FetchGraphWithDepthLimit (free variables: set, depthLim): a node is
